@@ -245,14 +245,29 @@ def run_rt(case, v):
         m = prog_model.Model(p).run()
     except prog_model.Ambiguous:
         raise Reject()
-    horizon = float(m.last_event) + 1.0
+    load = sum(op[1] for r in p['routines'].values() for op in r['body']
+               if op[0] == 'busy')
+    horizon = float(m.last_event) + 1.0 + load
     jit = 0.0
+    hand = any(op[0] == 'next' for op in p['top'])
     for tape in (case['tape_a'], case['tape_b']):
         out = RT[0].ask({'prog': p, 'tape': tape, 'horizon': horizon})
         if 'deadlock' in out or 'error' in out:
             v.fail('rt_run_failed', str(out)[:800])
             break
         jit += out['jitter']
+        if hand:
+            # routines stepped by hand run at the caller's logical time:
+            # for the main thread the physical time of the call, which the
+            # simulation owns (read back from the run)
+            calls = [x for x in out['trace'] if x['kind'] == 'next_call']
+            for x in calls:
+                if abs(x['secs'] - x['phys']) > 1e-9:
+                    v.fail('main_thread_logical_time',
+                           f'next() called at physical {x["phys"]}, main '
+                           f'thread logical time {x["secs"]}')
+            m = prog_model.Model(
+                p, hand_times=[F(x['phys']) for x in calls]).run()
         got = []
         for hx, target in out['dgrams']:
             try:
@@ -293,19 +308,25 @@ def run_rt(case, v):
             break
     nt, labels = classify(p, m)
     labels.append('jitter' if jit > 0 else 'no_jitter')
+    if load:
+        labels.append('busy_steps')
+    if hand:
+        labels.append('stepped_by_hand')
     return {'nontrivial': nt and jit > 0, 'labels': labels}
 
 
 def rt_cases():
     tape = st.lists(st.integers(0, 11), min_size=0, max_size=60)
     return st.fixed_dictionaries({
-        'prog': proggen.timing_program(apps=False, sends=True),
+        'prog': proggen.timing_program(apps=False, sends=True, busy=True,
+                                       hand=True),
         'tape_a': tape, 'tape_b': tape})
 
 
 def stages(ctx):
     return [
-        Stage('nrt', run_nrt, proggen.timing_program(sends=True), quick=600,
+        Stage('nrt', run_nrt, proggen.timing_program(sends=True, hand=True),
+              quick=600,
               thorough=5000),
         Stage('rt', run_rt, rt_cases(), quick=150, thorough=1500),
     ]
